@@ -8,6 +8,7 @@ from vlib import hx, unhx, fields, lst, files_req
 C03_THMS = ['Theo.C03_checker_sound', 'Theo.C03_wfCheck_sound', 'Theo.C03_structure']
 C16_THMS = ['Theo.C16_calls_go_down', 'Theo.C16_stack_bounded', 'Theo.C16_stack_bounded_wf']
 C01_THMS = ['Theo.C01_never_stuck', 'Theo.C01_halts_same_values', 'Theo.C01_diverges']
+C07_THMS = ['Theo.C07_step_trace', 'Theo.C07_no_extra_stops', 'Theo.C07_stepping_stops_at_sites']
 
 
 def envs(acts, keep_counters=False):
@@ -306,13 +307,28 @@ def check_C01(ctx, thms=None):
 
 
 def check_C07(ctx, thms=None):
-    build_all(ctx, ['Theo.Props.C07'] if thms else [], thms or [])
+    build_all(ctx, ['Theo.Props.C07'], thms if thms is not None else C07_THMS)
     if ctx.harness is None:
         return finish(ctx)
     cases = gen_programs(ctx, ctx.n(600, 6000), layouts=('canonical', 'canonical_multi', 'canonical_multi', 'reentry'))
     tri = [(c['mainf'], c['files'], c) for c in cases]
     a, b = front.corr_gen(ctx, tri)
     traces = impl(ctx, ['STEPTRACE %s 400000' % files_req(c['mainf'], c['files']) for c in cases], timeout=120)
+    # translation validation: siteCheck (proved: C07_step_trace) and wfCheck on every compiled program
+    sreqs, sidx = [], []
+    for i, (c, x) in enumerate(zip(cases, a)):
+        if not is_crash(x) and fields(x).get('ok') == '1':
+            fx = fields(x)
+            sreqs.append('SITES %s 1500 %s' % (files_req(c['mainf'], c['files']), ' '.join('%s=%s' % (k, fx[k]) for k in ('code', 'maps', 'pb', 'li'))))
+            sidx.append(i)
+    souts = model(ctx, sreqs, timeout=300) if ctx.driver else []
+    ctx.count('VALIDATE', len(sreqs))
+    for i, o in zip(sidx, souts):
+        if ' ok=1' not in o:
+            ctx.stage_broken('translation validation: siteCheck rejects a program compiled from a one-statement-per-line source (the C07 theorems do not cover it)', o[:200], cases[i]['text'])
+        elif 'agree=1' not in o:
+            ctx.stage_broken('Lean event semantics disagrees with the sites passed by the model VM', o[:200], cases[i]['text'])
+    ctx.cov['programs'] = len(sreqs)
     for c, x, tr in zip(cases, a, traces):
         ctx.cov['evaluations'] += 1
         if is_crash(x) or is_crash(tr):
